@@ -309,16 +309,22 @@ impl<K> Default for SSide<K> {
 
 fn exec_lookup<K: KeyT + Borrow<QQ>, QQ: ?Sized + Eq, const N: usize>(s: &mut Set<K, N>, op: &SetOp, q: &QQ, side: &mut SSide<K>) -> Ret {
     match *op {
-        SetOp::Contains { .. } => vec![F::B(s.contains::<QQ>(q))],
-        SetOp::Get { .. } => match s.get::<QQ>(q) {
+        SetOp::Contains { .. } => {
+            let r = crate::subj!(s.contains::<QQ>(q));
+            vec![F::B(r)]
+        }
+        SetOp::Get { .. } => match crate::subj!(s.get::<QQ>(q)) {
             Some(k) => {
                 side.refs.push((k as *const K as usize, std::mem::size_of::<K>()));
                 vec![F::K(k.kd())]
             }
             None => vec![F::None],
         },
-        SetOp::Remove { .. } => vec![F::B(s.remove::<QQ>(q))],
-        SetOp::Take { .. } => match s.take::<QQ>(q) {
+        SetOp::Remove { .. } => {
+            let r = crate::subj!(s.remove::<QQ>(q));
+            vec![F::B(r)]
+        }
+        SetOp::Take { .. } => match crate::subj!(s.take::<QQ>(q)) {
             Some(k) => {
                 let d = k.kd();
                 side.held.push(k);
@@ -332,8 +338,15 @@ fn exec_lookup<K: KeyT + Borrow<QQ>, QQ: ?Sized + Eq, const N: usize>(s: &mut Se
 
 pub fn exec_real<K: KeyT, const N: usize>(s: &mut Set<K, N>, op: &SetOp, a: &mut SArgs<K>, side: &mut SSide<K>) -> Ret {
     match *op {
-        SetOp::Insert { .. } => vec![F::B(s.insert(a.k.take().unwrap()))],
-        SetOp::Replace { .. } => match s.replace(a.k.take().unwrap()) {
+        SetOp::Insert { .. } => {
+            let k_ = a.k.take().unwrap();
+            let r = crate::subj!(s.insert(k_));
+            vec![F::B(r)]
+        }
+        SetOp::Replace { .. } => match {
+            let k_ = a.k.take().unwrap();
+            crate::subj!(s.replace(k_))
+        } {
             Some(k) => {
                 let d = k.kd();
                 side.held.push(k);
@@ -350,23 +363,25 @@ pub fn exec_real<K: KeyT, const N: usize>(s: &mut Set<K, N>, op: &SetOp, a: &mut
         },
         SetOp::Retain { keep } => {
             let mut items = Vec::new();
-            s.retain(|k| {
-                pl::tick(pl::Cb::Pred);
-                let kd = k.kd();
-                items.push(kd);
-                keep & (1 << kd.k) != 0
-            });
+            crate::subj!(s.retain(|k| {
+                crate::subject::pause(|| {
+                    pl::tick(pl::Cb::Pred);
+                    let kd = k.kd();
+                    items.push(kd);
+                    keep & (1 << kd.k) != 0
+                })
+            }));
             side.items = items;
             vec![]
         }
         SetOp::Clear => {
-            s.clear();
+            crate::subj!(s.clear());
             vec![]
         }
         SetOp::Drain { take, forget } => {
-            let mut d = s.drain();
+            let mut d = crate::subj!(s.drain());
             for _ in 0..take {
-                match d.next() {
+                match crate::subj!(d.next()) {
                     Some(k) => {
                         side.items.push(k.kd());
                         side.held.push(k);
@@ -377,7 +392,7 @@ pub fn exec_real<K: KeyT, const N: usize>(s: &mut Set<K, N>, op: &SetOp, a: &mut
             if forget {
                 std::mem::forget(d);
             } else {
-                drop(d);
+                crate::subj!(drop(d));
             }
             vec![]
         }
@@ -522,10 +537,12 @@ impl<K: KeyT, const N: usize> SetSys<K, N> {
         let mut a = prepare::<K>(op);
         let mut side: SSide<K> = SSide::default();
         let range = bx.range();
+        crate::subject::reset();
         let res = {
             let s = &mut bx.c;
             catch_unwind(AssertUnwindSafe(|| exec_real(s, op, &mut a, &mut side)))
         };
+        let allocs = crate::subject::take();
         let (got, panicked) = match res {
             Ok(r) => (r, false),
             Err(e) => {
@@ -592,6 +609,9 @@ impl<K: KeyT, const N: usize> SetSys<K, N> {
             cx.check(C06, *addr >= range.0 && addr + sz <= range.1, || "a reference handed out lies outside the container value".to_string());
         }
         cx.check(C03 | C02, bx.intact(), || "a canary next to the container was overwritten".to_string());
+        if crate::subject::installed() && K::PLAIN && !panicked && !matches!(op, SetOp::Extend { .. }) {
+            cx.check(C06, allocs == 0, || format!("the call made {allocs} allocator call(s)"));
+        }
         if K::LEDGER {
             let own = C02 | (pm & !C07);
             consistent &= flush_ledger(cx, own, "during the call");
